@@ -298,6 +298,7 @@ class Cluster(object):
         self.auto_create = False
         self.rebalance_timeout_is_session = True
         self.on_event = []  # callbacks(ev) after an event was handled
+        self.on_receive = []  # callbacks(ev) when a request arrives, before it is handled
         self.ghost_pred = None  # differential re-runs: fn(ev) -> True to draw but not deliver the reply
 
     # -- topology ----------------------------------------------------------
@@ -377,6 +378,8 @@ class Cluster(object):
                   client_id=req["client_id"], req=body, topics=topics, frame_len=len(frame), replied=None,
                   reply_t=None, result=None)
         self.history.append(ev)
+        for cb in self.on_receive:
+            cb(ev)
         act = self.faults.decide(ev)
         ev["action"] = act.as_json()
         if act.kind == "drop" and not act.apply:
